@@ -5,6 +5,8 @@ from vmon.checks.common import wrapper_agrees, obs, fail, both_views, random_pre
 
 EXTREMES = "seq"   # worker re-labels every sixth case to the ends of the legal ranges (gen.extremify)
 RESTATE = "seq"    # worker adds a signature restating the one in force to every fifth case (gen.restate_signatures)
+SHUFFLE = "seq"    # worker: every seventh case is built by add_absolute_message in shuffled order
+CANONICAL_ABS = True   # the function under test pairs / merges over the canonically sorted list (oracle.abs_order)
 PROP = "C06"
 MONITORS = ["qnl"]
 INSITU = {"k": "quantise or composition or tokenisation or bar or track or example or transpose"}
